@@ -199,94 +199,105 @@ def _execute(sc, clock0):
         if by_string:
             probe("string_key_query")
 
-    for k, op in enumerate(sc["script"]):
-        name = op["op"]
-        stats["ops"] += 1
-        if name == "quote":
-            t = core.parse_t(op["t"])
-            c = contracts[op["k"]]
-            if env is not None:
-                now = t
-            sym, lead = M.resolve(op["k"], now)
-            ev = EventNBBO(t, c, op["bid"], op["ask"])
-            if env is not None:
-                env.notify(ev)
-                if lead is not None:
-                    probe("chain_quote_dispatched_by_environment")
-            elif sc["via_notify"]:
-                ev.notify([ex])
-            else:
-                ex.process_EventNBBO(ev)
-            mb = M.book(sym)
-            if mb["alive"]:
-                mb["bid"], mb["ask"] = op["bid"], op["ask"]
-                mb["hist"].append((t, op["bid"], op["ask"]))
-            else:
-                probe("revival_attempt")
-                faults["quote_for_dead_book"] = faults.get("quote_for_dead_book", 0) + 1
-            if last_quoted is not None and last_quoted != sym:
-                probe("quote_other_key_between")
-            last_quoted = sym
-            if lead is not None and lead > specs[op["k"]].get("month", 0):
-                probe("chain_key_after_roll")
-            stats["quotes"] += 1
-            trace.append("q{}{}{}".format(specs[op["k"]]["kind"][0], "a" if mb["alive"] else "d", lead if lead is not None else ""))
-        elif name == "disc":
-            t = core.parse_t(op["t"])
-            if env is not None:
-                now = t
-            sym, lead = M.resolve(op["k"], now)
-            ev = EventContractDiscontinued(t, contracts[op["k"]])
-            if env is not None:
-                env.notify(ev)
-            elif sc["via_notify"]:
-                ev.notify([ex])
-            else:
-                ex.process_EventContractDiscontinued(ev)
-            mb = M.book(sym)
-            mb["alive"] = False
-            mb["bid"] = mb["ask"] = NAN
-            faults["discontinued"] = faults.get("discontinued", 0) + 1
-            trace.append("x{}".format(specs[op["k"]]["kind"][0]))
-        elif name == "clock":
-            now = core.parse_t(op["t"])
-            AbstractContract.now = now
-            faults["clock_moved"] = faults.get("clock_moved", 0) + 1
-            trace.append("c")
-        elif name == "query":
-            stats["queries"] += 1
-            keys = op["keys"]
-            signs = np.array(op["signs"], dtype=float)
-            cs = [contracts[j] for j in keys]
-            got_acq = ex.acq_prices(cs, signs)
-            got_liq = ex.liq_prices(cs, signs)
-            for j, s, ga, gl in zip(keys, op["signs"], got_acq, got_liq):
-                sym, lead = M.resolve(j, now)
+    cur = [0]
+    try:
+        for k, op in enumerate(sc["script"]):
+            cur[0] = k
+            name = op["op"]
+            stats["ops"] += 1
+            if name == "quote":
+                t = core.parse_t(op["t"])
+                c = contracts[op["k"]]
+                if env is not None:
+                    now = t
+                sym, lead = M.resolve(op["k"], now)
+                ev = EventNBBO(t, c, op["bid"], op["ask"])
+                if env is not None:
+                    env.notify(ev)
+                    if lead is not None:
+                        probe("chain_quote_dispatched_by_environment")
+                elif sc["via_notify"]:
+                    ev.notify([ex])
+                else:
+                    ex.process_EventNBBO(ev)
                 mb = M.book(sym)
-                mid = (mb["ask"] + mb["bid"]) / 2
-                want_a = mb["ask"] if s > 0 else (mb["bid"] if s < 0 else mid)
-                want_l = mb["bid"] if s > 0 else (mb["ask"] if s < 0 else mid)
-                if not same(float(ga), want_a) or not same(float(gl), want_l):
-                    violate(k, "side_selection", "{} sign {}: acq {} liq {} expected {} / {}".format(
-                        specs[j]["name"], s, ga, gl, want_a, want_l), kind="sign_" + ("pos" if s > 0 else ("neg" if s < 0 else "zero")))
-            arr = {"bid": ex.bid_prices(cs), "ask": ex.ask_prices(cs), "mid": ex.mid_prices(cs), "spread": ex.spreads(cs)}
-            for pos_, j in enumerate(keys):
-                sym, lead = M.resolve(j, now)
+                if mb["alive"]:
+                    mb["bid"], mb["ask"] = op["bid"], op["ask"]
+                    mb["hist"].append((t, op["bid"], op["ask"]))
+                else:
+                    probe("revival_attempt")
+                    faults["quote_for_dead_book"] = faults.get("quote_for_dead_book", 0) + 1
+                if last_quoted is not None and last_quoted != sym:
+                    probe("quote_other_key_between")
+                last_quoted = sym
+                if lead is not None and lead > specs[op["k"]].get("month", 0):
+                    probe("chain_key_after_roll")
+                stats["quotes"] += 1
+                trace.append("q{}{}{}".format(specs[op["k"]]["kind"][0], "a" if mb["alive"] else "d", lead if lead is not None else ""))
+            elif name == "disc":
+                t = core.parse_t(op["t"])
+                if env is not None:
+                    now = t
+                sym, lead = M.resolve(op["k"], now)
+                ev = EventContractDiscontinued(t, contracts[op["k"]])
+                if env is not None:
+                    env.notify(ev)
+                elif sc["via_notify"]:
+                    ev.notify([ex])
+                else:
+                    ex.process_EventContractDiscontinued(ev)
                 mb = M.book(sym)
-                wantv = {"bid": mb["bid"], "ask": mb["ask"], "mid": (mb["ask"] + mb["bid"]) / 2, "spread": mb["ask"] - mb["bid"]}
-                for name_, vec in arr.items():
-                    if not same(float(vec[pos_]), wantv[name_]):
-                        violate(k, "book_state", "{}: {}_prices reports {} expected {}".format(specs[j]["name"], name_, vec[pos_], wantv[name_]), kind="array_" + name_, by_string=False)
-            trace.append("?")
-        # after every operation: every key's book agrees with the model
-        for j in range(len(specs)):
-            check_book(k, j, by_string=False)
-        if name == "query" and op.get("by_string"):
-            for j in op["keys"]:
-                check_book(k, j, by_string=True)
-        log.append([k, name, canon({j: [ex[contracts[j]].bid_price, ex[contracts[j]].ask_price, len(ex[contracts[j]].history["time"])] for j in range(len(specs))})])
-        if violations:
-            break
+                mb["alive"] = False
+                mb["bid"] = mb["ask"] = NAN
+                faults["discontinued"] = faults.get("discontinued", 0) + 1
+                trace.append("x{}".format(specs[op["k"]]["kind"][0]))
+            elif name == "clock":
+                now = core.parse_t(op["t"])
+                AbstractContract.now = now
+                faults["clock_moved"] = faults.get("clock_moved", 0) + 1
+                trace.append("c")
+            elif name == "query":
+                stats["queries"] += 1
+                keys = op["keys"]
+                signs = np.array(op["signs"], dtype=float)
+                cs = [contracts[j] for j in keys]
+                got_acq = ex.acq_prices(cs, signs)
+                got_liq = ex.liq_prices(cs, signs)
+                for j, s, ga, gl in zip(keys, op["signs"], got_acq, got_liq):
+                    sym, lead = M.resolve(j, now)
+                    mb = M.book(sym)
+                    mid = (mb["ask"] + mb["bid"]) / 2
+                    want_a = mb["ask"] if s > 0 else (mb["bid"] if s < 0 else mid)
+                    want_l = mb["bid"] if s > 0 else (mb["ask"] if s < 0 else mid)
+                    if not same(float(ga), want_a) or not same(float(gl), want_l):
+                        violate(k, "side_selection", "{} sign {}: acq {} liq {} expected {} / {}".format(
+                            specs[j]["name"], s, ga, gl, want_a, want_l), kind="sign_" + ("pos" if s > 0 else ("neg" if s < 0 else "zero")))
+                arr = {"bid": ex.bid_prices(cs), "ask": ex.ask_prices(cs), "mid": ex.mid_prices(cs), "spread": ex.spreads(cs)}
+                for pos_, j in enumerate(keys):
+                    sym, lead = M.resolve(j, now)
+                    mb = M.book(sym)
+                    wantv = {"bid": mb["bid"], "ask": mb["ask"], "mid": (mb["ask"] + mb["bid"]) / 2, "spread": mb["ask"] - mb["bid"]}
+                    for name_, vec in arr.items():
+                        if not same(float(vec[pos_]), wantv[name_]):
+                            violate(k, "book_state", "{}: {}_prices reports {} expected {}".format(specs[j]["name"], name_, vec[pos_], wantv[name_]), kind="array_" + name_, by_string=False)
+                trace.append("?")
+            # after every operation: every key's book agrees with the model
+            for j in range(len(specs)):
+                check_book(k, j, by_string=False)
+            if name == "query" and op.get("by_string"):
+                for j in op["keys"]:
+                    check_book(k, j, by_string=True)
+            log.append([k, name, canon({j: [ex[contracts[j]].bid_price, ex[contracts[j]].ask_price, len(ex[contracts[j]].history["time"])] for j in range(len(specs))})])
+            if violations:
+                break
+    except core.HarnessError:
+        raise
+    except Exception as e:
+        # the library failed on a valid call (not the harness): a finding, not a harness error
+        site = core.library_site(e)
+        if site is None:
+            raise
+        violate(cur[0], "unexpected_exception", "op {} ({}) raised {!r} in {}".format(cur[0], sc["script"][cur[0]]["op"], e, site), exc=type(e).__name__, site=site)
     return {"violations": violations, "digest": core.digest(log), "probes": probes, "faults": faults, "stats": stats,
             "trace": "".join(trace), "nontrivial": stats["quotes"] >= 1 and len(probes) >= 1}
 
